@@ -60,17 +60,19 @@ impl D {
     }
     /// the same parameter setting reached through `update` from another one: "every valid parameter setting" does not depend on how the object got there
     pub fn build_via(&self, via_update: bool) -> Box<dyn Distribution1D> {
-        if !via_update { return self.build(); }
+        if !via_update || !self.update_exact() { return self.build(); }
         let mut b = self.other().build(); b.update(&self.params()); b
     }
+    /// `update` takes every parameter as f64: integer parameters beyond 2^53 cannot be passed through it unchanged
+    pub fn update_exact(&self) -> bool { match *self { D::DiscreteUniform(a, b) => (a as f64) as i64 == a && (b as f64) as i64 == b && (a as f64) < 9e18 && (b as f64) < 9e18, D::Binomial(n, _) => (n as f64) as u64 == n, _ => true } }
     pub fn describe_via(&self, via_update: bool) -> String {
-        if via_update { format!("{{ let mut d = {}; d.update(&{:?}); d }}", self.other().describe(), self.params()) } else { self.describe() }
+        if via_update && self.update_exact() { format!("{{ let mut d = {}; d.update(&{:?}); d }}", self.other().describe(), self.params()) } else { self.describe() }
     }
     pub fn discrete(&self) -> bool { matches!(self, D::Poisson(..) | D::Binomial(..) | D::DiscreteUniform(..) | D::Bernoulli(..)) }
     /// a point mass (degenerate parameters): every draw must equal this value
     pub fn atom(&self) -> Option<f64> {
         match *self { D::Normal(m, s) if s == 0.0 => Some(m), D::Uniform(a, b) if a == b => Some(a), D::Binomial(n, p) if n == 0 || p == 0.0 => { let _ = n; Some(0.0) }
-            D::Binomial(n, p) if p == 1.0 => Some(n as f64), D::Bernoulli(p) if p == 0.0 => Some(0.0), D::Bernoulli(p) if p == 1.0 => Some(1.0), _ => None }
+            D::Binomial(n, p) if p == 1.0 => Some(n as f64), D::DiscreteUniform(a, b) if a == b => Some(a as f64), D::Bernoulli(p) if p == 0.0 => Some(0.0), D::Bernoulli(p) if p == 1.0 => Some(1.0), _ => None }
     }
     /// closed support (finite values only) and integrality for the discrete laws
     pub fn in_support(&self, x: f64) -> bool {
@@ -87,9 +89,9 @@ impl D {
         match *self {
             D::Normal(m, s) => norm_cdf((x - m) / s), D::Uniform(a, b) => ((x - a) / (b - a)).clamp(0.0, 1.0),
             D::Exponential(l) => if x <= 0.0 { 0.0 } else { -(-l * x).exp_m1() }, D::Gumbel(m, b) => (-(-(x - m) / b).exp()).exp(),
-            D::Pareto(a, m) => if x <= m { 0.0 } else { 1.0 - (m / x).powf(a) }, D::Gamma(a, b) => gamma_p(a, b * x), D::Beta(a, b) => beta_i(a, b, x),
-            D::ChiSquared(k) => gamma_p(k as f64 / 2.0, x / 2.0), D::T(nu) => t_cdf(nu, x), D::Poisson(l) => poisson_cdf(l, x), D::Binomial(n, p) => binom_cdf(n, p, x),
-            D::DiscreteUniform(a, b) => { let k = x.floor(); if k < a as f64 { 0.0 } else if k >= b as f64 { 1.0 } else { (k - a as f64 + 1.0) / ((b - a) as f64 + 1.0) } }
+            D::Pareto(a, m) => if x <= m { 0.0 } else { -(a * (m / x).ln()).exp_m1() }, D::Gamma(a, b) => gamma_p_any(a, b * x), D::Beta(a, b) => beta_i(a, b, x),
+            D::ChiSquared(k) => gamma_p_any(k as f64 / 2.0, x / 2.0), D::T(nu) => t_cdf(nu, x), D::Poisson(l) => poisson_cdf(l, x), D::Binomial(n, p) => binom_cdf(n, p, x),
+            D::DiscreteUniform(a, b) => { let k = x.floor(); if k < a as f64 { 0.0 } else if k >= b as f64 { 1.0 } else { (k - a as f64 + 1.0) / ((b as f64 - a as f64) + 1.0) } }
             D::Bernoulli(p) => if x < 0.0 { 0.0 } else if x < 1.0 { 1.0 - p } else { 1.0 },
         }
     }
@@ -103,28 +105,41 @@ fn watchdog<R: Send + 'static>(secs: f64, f: impl FnOnce() -> R + Send + 'static
     rx.recv_timeout(Duration::from_secs_f64(secs)).ok()
 }
 
-/// sup_x |F_n(x) - F(x)| for a sorted sample
-fn dkw_sup(sorted: &[f64], d: &D) -> (f64, f64) {
+/// sup |F_n(x) - F(x)| over the sample points x of a sorted sample, every `stride`-th of them (stride 1 = all). A maximum over FEWER
+/// points is a lower bound of the DKW statistic, so the false-alarm bound alpha is kept; the stride (used where one evaluation of the
+/// reference CDF costs 1e4..1e6 operations) loses at most stride/n of resolution.
+fn dkw_sup(sorted: &[f64], d: &D, stride: usize) -> (f64, f64) {
     let n = sorted.len() as f64;
     let mut worst = (0.0f64, 0.0f64);
     if d.discrete() {
-        let mut i = 0usize;
+        let mut i = 0usize; let mut g = 0usize;
         while i < sorted.len() {
             let v = sorted[i]; let mut j = i; while j < sorted.len() && sorted[j] == v { j += 1; }
-            let left = (i as f64 / n - d.cdf(v - 1.0)).abs();   // just below v: F_n = i/n, F = F(v - 1)
-            let at = (j as f64 / n - d.cdf(v)).abs();
-            if left > worst.0 { worst = (left, v - 1.0); }
-            if at > worst.0 { worst = (at, v); }
-            i = j;
+            if g % stride == 0 {
+                // just below v: F_n = i/n, F = F(v - 1); beyond 2^53 the integer v - 1 is not a binary64 number (the draws are returned as
+                // f64, several integers share one value) and the left limit cannot be formed: only the value AT v is compared there
+                let left = if v - 1.0 < v { (i as f64 / n - d.cdf(v - 1.0)).abs() } else { 0.0 };
+                let at = (j as f64 / n - d.cdf(v)).abs();
+                if left > worst.0 { worst = (left, v - 1.0); }
+                if at > worst.0 { worst = (at, v); }
+            }
+            i = j; g += 1;
         }
     } else {
-        for (i, &x) in sorted.iter().enumerate() {
+        for (i, &x) in sorted.iter().enumerate().step_by(stride) {
             let f = d.cdf(x);
             let e = (f - i as f64 / n).abs().max(((i + 1) as f64 / n - f).abs());
             if e > worst.0 { worst = (e, x); }
         }
     }
     worst
+}
+/// how many sample points share one evaluation of the reference CDF (1 unless the reference is expensive at these parameters)
+fn cdf_stride(d: &D, n: usize) -> usize {
+    let big = match *d { D::Gamma(a, _) => a, D::ChiSquared(k) => k as f64 / 2.0, D::T(nu) => nu / 2.0, D::Poisson(l) => l, D::Beta(a, b) => a.max(b),
+        D::Binomial(nn, p) => { let v = nn as f64 * p * (1.0 - p); if v >= 1e7 { 0.0 } else { v } } _ => 0.0 };
+    let s = if big >= 1e7 { if matches!(d, D::Gamma(..) | D::ChiSquared(_) | D::Poisson(_)) { 1 } else { 512 } } else if big >= 3e5 { 256 } else if big >= 2e4 { 16 } else { 1 };
+    s.min((n / 500).max(1))
 }
 fn dkw_eps(n: usize) -> f64 { ((2.0f64 / 1e-12).ln() / (2.0 * n as f64)).sqrt() }
 
@@ -161,9 +176,62 @@ fn regimes(thorough: bool) -> Vec<D> {
     v
 }
 
+/// COVERAGE AUDIT (the property says "every valid parameter setting"; the grid above stops at moderate values): extreme-but-valid
+/// parameters of every family, the boundary of each algorithm switch, and the degenerate equal bounds of the discrete uniform law
+/// (the quantifier names them; D11 is repaired). Scales at which the TRUE law leaves binary64 (mass below the smallest subnormal or
+/// above the largest double: Gamma / Beta shape < 0.05, t dof < 0.1, Pareto alpha < 0.1) stay outside, as recorded in the assumptions.
+/// Beta with a SECOND shape below about 0.15 is outside for the same reason at the other end: the true law puts the mass
+/// (2^-53)^b / (b B(a, b)) within half an ulp of 1 (Beta(0.05, 0.05): 7.7%, Beta(0.1, 0.1): 1.3%), every binary64-valued sampler returns
+/// exactly 1.0 with that probability, and the empirical CDF of ANY such sampler jumps by more than the band there.
+fn wide(thorough: bool) -> Vec<D> {
+    let mut v = vec![
+        // location / scale far from 1 (the ziggurat variate is scaled: nothing may overflow or lose the sign)
+        D::Normal(-1e6, 1e3), D::Normal(0.0, 1e150), D::Normal(0.0, 1e-150), D::Normal(1e300, 1e299),
+        D::Uniform(-1e300, 1e300), D::Uniform(-1e308, 1e308), D::Uniform(0.0, 1e-300), D::Uniform(-1.0, 0.0),
+        D::Exponential(1e-200), D::Exponential(1e200), D::Gumbel(0.0, 1e100), D::Gumbel(1e3, 1e-3),
+        D::Pareto(0.1, 1.0), D::Pareto(1e3, 5.0), D::Pareto(2.0, 1e-200), D::Pareto(0.5, 1e200),
+        // gamma: smallest shape of the grid, both sides of the switch at 1, large shapes, extreme rates
+        D::Gamma(0.05, 1.0), D::Gamma(0.9999999, 1.0), D::Gamma(1.0000001, 1.0), D::Gamma(1e6, 1.0), D::Gamma(1e9, 1e9), D::Gamma(1e15, 1.0),
+        D::Gamma(2.0, 1e-200), D::Gamma(2.0, 1e200), D::Gamma(0.07, 1e-100),
+        D::Beta(0.05, 0.3), D::Beta(0.05, 100.0), D::Beta(1e3, 0.5), D::Beta(1e4, 1e4), D::Beta(1.0, 1e6), D::Beta(0.999, 1.001),
+        D::ChiSquared(200), D::ChiSquared(1000), D::ChiSquared(1_000_000), D::ChiSquared(40_000_000),
+        D::T(0.1), D::T(0.3), D::T(1.9999), D::T(1e3), D::T(1e6),
+        // Poisson: tiny rates, the switch at 10 from below, PTRS far beyond 1e5 (k ln(lambda) - ln k! is a difference of huge terms)
+        D::Poisson(1e-9), D::Poisson(1e-300), D::Poisson(9.999999999), D::Poisson(1e7), D::Poisson(1e9), D::Poisson(1e12), D::Poisson(1e15),
+        // binomial: huge n in the inversion regime ((1-p)^n with 1-p rounded), at the switch n p = 30, BTPE with huge n, both reflected
+        D::Binomial(1_000_000_000_000, 1e-11), D::Binomial(1_000_000_000_000_000, 1e-14), D::Binomial(1_000_000_000_000_000, 3e-14),
+        D::Binomial(1_000_000_000_000_000_000, 1e-17), D::Binomial(1_000_000_000_000_000, 1.0 - 1e-14), D::Binomial(1_000_000_000_000_000, 0.5),
+        D::Binomial(1 << 53, 0.25), D::Binomial(1_000_000_000_000, 0.9), D::Binomial(61, 0.5), D::Binomial(60, 0.5), D::Binomial(2, 0.5), D::Binomial(31, 1.0 - 1e-3),
+        D::Binomial(1_000_000, 1e-300), D::Binomial(1, 1e-3), D::Binomial(1, 1.0), D::Binomial(0, 0.0), D::Binomial(0, 1.0),
+        // discrete uniform: DEGENERATE EQUAL BOUNDS (named by the quantifier), extreme bounds, a span above 2^63
+        D::DiscreteUniform(3, 3), D::DiscreteUniform(0, 0), D::DiscreteUniform(-7, -7), D::DiscreteUniform(i64::MAX, i64::MAX), D::DiscreteUniform(i64::MIN, i64::MIN),
+        D::DiscreteUniform(i64::MIN, i64::MIN + 1), D::DiscreteUniform(i64::MAX - 2, i64::MAX), D::DiscreteUniform(-(1 << 62) - 5, 1 << 62), D::DiscreteUniform(i64::MIN, i64::MAX),
+        D::Bernoulli(1e-300), D::Bernoulli(1.0 - 1e-3), D::Bernoulli(0.9999999999999999), D::Bernoulli(5e-324),
+    ];
+    if thorough {
+        v.extend([D::Gamma(1e12, 1e-3), D::ChiSquared(2_000_000_000), D::T(1e9), D::Poisson(1e10), D::Poisson(3e13), D::Poisson(1e18), D::Binomial(1_000_000_000_000_000_000, 0.3),
+                  D::Binomial(100_000_000_000_000, 1e-13), D::Binomial(10_000_000_000, 3e-9), D::Beta(1e6, 1e6), D::Pareto(1e6, 1.0), D::Normal(-1e9, 1.0)]);   // not Normal(-1e15, 1): the binary64 grid there is 0.125 wide, one cell carries 5% of the mass (see Beta above)
+    }
+    v
+}
+
+/// class key of a failure of kind `kind` ("support", "dkw", ...) in regime `d`: the family, refined where the parameters themselves
+/// are of a kind of their own (a range wider than the largest double / than 2^64 - 1 integers)
+fn class_of(d: &D, kind: &str) -> String {
+    match *d {
+        D::Uniform(a, b) if !(b - a).is_finite() => format!("uniform:{}:width-overflows-f64", kind),
+        D::DiscreteUniform(a, b) if b.wrapping_sub(a).wrapping_add(1) == 0 => format!("discrete_uniform:{}:span-2^64", kind),
+        // PTRS accepts on ln V + .. <= -lam + k ln(lam) - ln_gamma(k + 1): beyond lam ln(lam) = 2^49 (lam about 1.9e13) each of the two large terms
+        // carries an absolute rounding error of 1/16 or more, in a comparison whose sides differ by O(1)
+        D::Poisson(l) if l * l.ln() >= 562949953421312.0 => format!("poisson:{}:log-terms-above-2^49", kind),
+        _ => format!("{}:{}", d.name(), kind),
+    }
+}
+
 struct Sink { worst: std::collections::BTreeMap<String, (f64, String, String)>, tried: u64 }
 impl Sink {
     fn fail(&mut self, class: String, sev: f64, what: String, input: String) {
+        if std::env::var_os("C03_ORACLE_VERBOSE").is_some() { eprintln!("[{}] {} | {}", class, what, input); }
         let e = self.worst.entry(class).or_insert((-1.0, String::new(), String::new()));
         if sev > e.0 { *e = (sev, what, input); }
     }
@@ -186,9 +254,12 @@ pub fn oracle(tier: &str, seed: u64) -> (u64, Vec<Finding>) {
     let mut hung: std::collections::BTreeSet<&'static str> = Default::default();
     // every second regime (both ways in the thorough tier) the object is reached through `update` from another valid setting
     let mut plan: Vec<(D, bool)> = vec![];
-    for (i, d) in regimes(thorough).into_iter().enumerate() { if thorough { plan.push((d.clone(), false)); plan.push((d, true)); } else { plan.push((d, i % 2 == 1)); } }
+    for (i, d) in regimes(thorough).into_iter().chain(wide(thorough)).enumerate() { if thorough { plan.push((d.clone(), false)); plan.push((d, true)); } else { plan.push((d, i % 2 == 1)); } }
+    // diagnostic only: C03_ORACLE_ONLY=<family> evaluates that family's regimes alone (seeds unchanged); the driver never sets it
+    let only = std::env::var("C03_ORACLE_ONLY").ok();
     for (d, via) in plan {
         let sd = r.next();
+        if let Some(o) = &only { if o != d.name() { continue; } }
         let input = format!("alea::set_seed({}); {}.sample_n({})", sd, d.describe_via(via), n);
         if hung.contains(regime_tag(&d)) { continue; }
         crumb(&input);
@@ -212,23 +283,24 @@ pub fn oracle(tier: &str, seed: u64) -> (u64, Vec<Finding>) {
         sink.tried += n as u64;
         if xs.len() != n { sink.fail("bulk:length".into(), 1.0, format!("sample_n({}) returned {} draws", n, xs.len()), input.clone()); continue; }
         if let Some((i, x)) = xs.iter().enumerate().find(|(_, x)| !d.in_support(**x)) {
-            sink.fail(format!("{}:support", d.name()), 1.0, format!("draw #{} = {:e} is outside the support{}", i, x, if d.discrete() { " (or not an integer)" } else { "" }), input.clone());
+            sink.fail(class_of(&d, "support"), 1.0, format!("draw #{} = {:e} is outside the support{}", i, x, if d.discrete() { " (or not an integer)" } else { "" }), input.clone());
             continue;
         }
         if let Some(a) = d.atom() {
-            if let Some((i, x)) = xs.iter().enumerate().find(|(_, x)| **x != a) { sink.fail(format!("{}:degenerate", d.name()), 1.0, format!("point mass at {:e}, but draw #{} = {:e}", a, i, x), input.clone()); }
+            if let Some((i, x)) = xs.iter().enumerate().find(|(_, x)| **x != a) { sink.fail(class_of(&d, "degenerate"), 1.0, format!("point mass at {:e}, but draw #{} = {:e}", a, i, x), input.clone()); }
             continue;
         }
         let mut s: Vec<f64> = xs.to_vec(); s.sort_by(|a, b| a.partial_cmp(b).unwrap());
-        let (sup, at) = dkw_sup(&s, &d); let eps = dkw_eps(n);
+        let (sup, at) = dkw_sup(&s, &d, cdf_stride(&d, n)); let eps = dkw_eps(n);
         if !(sup <= eps) {
-            sink.fail(format!("{}:dkw", d.name()), sup / eps, format!("sup|F_n - F| = {:.5} at x = {:e} exceeds the DKW band {:.5} (n = {}, alpha = 1e-12): F_n = {:.5}, F = {:.5}", sup, at, eps, n,
+            sink.fail(class_of(&d, "dkw"), sup / eps, format!("sup|F_n - F| = {:.5} at x = {:e} exceeds the DKW band {:.5} (n = {}, alpha = 1e-12): F_n = {:.5}, F = {:.5}", sup, at, eps, n,
                       s.partition_point(|v| *v <= at) as f64 / n as f64, d.cdf(at)), input.clone());
         }
     }
 
+    if only.is_some() { let out = sink.worst.into_iter().map(|(class, (_, what, input))| Finding { class, what, input }).collect(); return (sink.tried, out); }
     // 2. draws on which the uniform variate is exactly 0 (seeds that make wyrand return 0 first)
-    for d in regimes(false) {
+    for d in regimes(false).into_iter().chain(wide(false)) {
         if hung.contains(d.name()) { continue; }
         for &z in &ZERO_SEEDS {
             let input = format!("alea::set_seed({}); {}.sample()", z, d.describe());
@@ -237,7 +309,7 @@ pub fn oracle(tier: &str, seed: u64) -> (u64, Vec<Finding>) {
             match watchdog(3.0, move || { alea::set_seed(z); dd.build().sample() }) {
                 None => { hung.insert(d.name()); sink.fail(format!("{}:nonterminating", d.name()), 1.0, "did not return within 3 s when the first uniform variate is exactly 0".into(), input); }
                 Some(Err(e)) => sink.fail(format!("{}:panic", d.name()), 1.0, format!("panicked when the first uniform variate is exactly 0: {}", e), input),
-                Some(Ok(x)) => if !d.in_support(x) { sink.fail(format!("{}:support", d.name()), 2.0, format!("returned {:e}, outside the support, when alea::f64() returned exactly 0", x), input); }
+                Some(Ok(x)) => if !d.in_support(x) { sink.fail(class_of(&d, "support"), 2.0, format!("returned {:e}, outside the support, when alea::f64() returned exactly 0", x), input); }
             }
         }
     }
@@ -282,13 +354,29 @@ pub fn oracle(tier: &str, seed: u64) -> (u64, Vec<Finding>) {
 
     // 5. multivariate normal: whitened coordinates and random projections are standard normal (DKW), shape of sample_n
     let nm = if thorough { 1_000_000 } else { 100_000 };
-    for &dim in &[1usize, 2, 3, 5] {
+    // COVERAGE AUDIT: beyond the four well-conditioned orders 1, 2, 3, 5, the covariance kinds of the end-to-end correspondence cases
+    // (diagonal over 12 decades, badly scaled, Hilbert, nearly singular, equicorrelated with rho -> 1, small integers) at orders up to 12
+    let mut extra: Vec<(usize, Vec<f64>, Vec<f64>, &'static str)> = vec![];
+    { let mut r2 = Rng::new(seed ^ 0xC03_A0D);
+      let pairs: Vec<(usize, usize)> = if thorough { let mut v = vec![]; for &dim in &[4usize, 6, 7, 8, 9, 10, 11, 12] { for &kind in &[0usize, 1, 2, 3, 4, 5, 16] { if kind != 3 || dim <= 8 { v.push((kind, dim)); } } } v }
+          else { vec![(0, 4), (1, 6), (2, 8), (3, 6), (4, 7), (5, 10), (16, 12), (1, 12), (0, 9)] };
+      for (kind, dim) in pairs { let cv = mvn_covs::covariance(&mut r2, dim, kind); let mu: Vec<f64> = (0..dim).map(|_| r2.uniform(-5.0, 5.0) * if kind == 1 { 1e3 } else { 1.0 }).collect(); extra.push((dim, cv.data, mu, cv.tag)); } }
+    for case in 0..4 + extra.len() {
+        let (dim, cov, mu, kind_tag) = if case < 4 {
+        let dim = [1usize, 2, 3, 5][case];
         // covariance = A A^T + diag, mean arbitrary
         let a: Vec<f64> = (0..dim * dim).map(|_| r.uniform(-1.5, 1.5)).collect();
         let mut cov = vec![0.0; dim * dim];
         for i in 0..dim { for j in 0..dim { let mut s = 0.0; for k in 0..dim { s += a[i * dim + k] * a[j * dim + k]; } cov[i * dim + j] = s + if i == j { 0.5 } else { 0.0 }; } }
         for i in 0..dim { for j in 0..i { cov[i * dim + j] = cov[j * dim + i]; } }
         let mu: Vec<f64> = (0..dim).map(|_| r.uniform(-5.0, 5.0)).collect();
+        (dim, cov, mu, "spd/gram+0.5") } else { extra[case - 4].clone() };
+        // own Cholesky factor (textbook): a covariance on which it meets a non-positive pivot is numerically not positive definite
+        // (only the nearly singular kind can be): the constructor may refuse it and nothing is demanded there
+        let mut l = vec![0.0; dim * dim];
+        for i in 0..dim { for j in 0..=i { let mut s = cov[i * dim + j]; for k in 0..j { s -= l[i * dim + k] * l[j * dim + k]; } l[i * dim + j] = if i == j { s.sqrt() } else { s / l[j * dim + j] }; } }
+        if !(0..dim).all(|i| l[i * dim + i] > 0.0 && l[i * dim + i].is_finite()) { continue; }
+        let _ = kind_tag;
         let sd = r.next();
         let input = format!("alea::set_seed({}); MVN::new({:?}, Matrix::new({:?}, {}, {})).sample_n({})", sd, mu, cov, dim, dim, nm);
         crumb(&input); sink.tried += nm as u64;
@@ -298,9 +386,7 @@ pub fn oracle(tier: &str, seed: u64) -> (u64, Vec<Finding>) {
             None => { sink.fail("mvn:nonterminating".into(), 1.0, "no return within 300 s".into(), input); continue; } };
         if shape != [nm, dim] || data.len() != nm * dim || one.len() != dim { sink.fail("bulk:shape".into(), 1.0, format!("MVN sample_n({}) has shape {:?} ({} elements), sample() has length {}", nm, shape, data.len(), one.len()), input.clone()); continue; }
         if data.iter().any(|x| !x.is_finite()) { sink.fail("mvn:support".into(), 1.0, "a draw has a non-finite coordinate".into(), input.clone()); continue; }
-        // own Cholesky factor (textbook), forward substitution
-        let mut l = vec![0.0; dim * dim];
-        for i in 0..dim { for j in 0..=i { let mut s = cov[i * dim + j]; for k in 0..j { s -= l[i * dim + k] * l[j * dim + k]; } l[i * dim + j] = if i == j { s.sqrt() } else { s / l[j * dim + j] }; } }
+        // forward substitution with the own factor
         let eps = dkw_eps(nm);
         let std_norm = D::Normal(0.0, 1.0);
         let mut white: Vec<Vec<f64>> = vec![Vec::with_capacity(nm); dim];
@@ -311,7 +397,7 @@ pub fn oracle(tier: &str, seed: u64) -> (u64, Vec<Finding>) {
         }
         for (i, w) in white.iter_mut().enumerate() {
             w.sort_by(|a, b| a.partial_cmp(b).unwrap());
-            let (sup, at) = dkw_sup(w, &std_norm);
+            let (sup, at) = dkw_sup(w, &std_norm, 1);
             if !(sup <= eps) { sink.fail("mvn:whitened-dkw".into(), sup / eps, format!("whitened coordinate {} is not standard normal: sup|F_n - Phi| = {:.5} at {:e} > {:.5}", i, sup, at, eps), input.clone()); }
         }
         for _ in 0..(if thorough { 12 } else { 4 }) {
@@ -320,7 +406,7 @@ pub fn oracle(tier: &str, seed: u64) -> (u64, Vec<Finding>) {
             let sdv = var.sqrt(); if !(sdv > 1e-6) { continue; }
             let mut pr: Vec<f64> = data.chunks(dim).map(|row| (0..dim).map(|i| dir[i] * (row[i] - mu[i])).sum::<f64>() / sdv).collect();
             pr.sort_by(|a, b| a.partial_cmp(b).unwrap());
-            let (sup, at) = dkw_sup(&pr, &std_norm);
+            let (sup, at) = dkw_sup(&pr, &std_norm, 1);
             if !(sup <= eps) { sink.fail("mvn:projection-dkw".into(), sup / eps, format!("projection on {:?} is not standard normal after scaling: sup|F_n - Phi| = {:.5} at {:e} > {:.5}", dir, sup, at, eps), input.clone()); }
         }
     }
@@ -426,6 +512,14 @@ pub fn gen(tier: &str, seed: u64, outdir: &str) {
         if let D::Binomial(n, _) = d { if n > 1 << 33 { continue; } }
         let sd = r.next(); push_draws(&mut cs, &d, sd, 6, None);
     }
+    // COVERAGE AUDIT: the extreme-but-valid parameters of the oracle's wide grid (the huge-n inversion cases pin exp(n ln_1p(-p))), the
+    // degenerate equal bounds of the discrete uniform law; left out: BTPE with n > 2^33 (as above) and the span of 2^64 integers (finding)
+    for d in wide(thorough) {
+        if let D::Binomial(n, p) = d { if n > 1 << 33 && (n as f64) * p.min(1.0 - p) > 30.0 { continue; } }
+        if let D::DiscreteUniform(a, b) = d { if b.wrapping_sub(a).wrapping_add(1) == 0 { continue; } }
+        let tag = match d { D::DiscreteUniform(a, b) if a == b => Some("discrete_uniform/equal-bounds"), D::Binomial(n, _) if n > 1 << 33 => Some("binomial/inversion-huge-n"), _ => None };
+        let sd = r.next(); push_draws(&mut cs, &d, sd, 6, tag);
+    }
     // random parameters in every regime
     for _ in 0..260 * k { let d = random_dist(&mut r); let sd = r.next(); let cnt = 1 + r.below(8) as usize; push_draws(&mut cs, &d, sd, cnt, None); }
     // the seeds on which the first uniform variate is exactly 0, and small seeds
@@ -504,5 +598,5 @@ pub fn gen(tier: &str, seed: u64, outdir: &str) {
         libm::start(); let res = catch(|| compute::functions::ln_gamma(x)); let t = libm::stop();
         cs.push(app("CLnGamma", vec![libm_table(&t), Tm::F(x), outcome_list(&res.map(|v| vec![v]))]), if x < 0.5 { "ln_gamma/reflection" } else { "ln_gamma/direct" }, x != 1.0 && x != 2.0);
     }
-    cs.write(outdir, 120, "after alea::set_seed(seed): the first k draws (k = 0..8) of every distribution over the oracle's regime grid and over random parameters in every algorithm branch (gamma shape < 1/3, < 1, >= 1 and beta / chi-squared / t built on it; Poisson multiplication / PTRS / PTRS beyond 150; binomial inversion / BTPE / flipped / degenerate / n >= 2^31; ziggurat fast path, wedge and tail as the seeds reach them), the two seeds that make the first uniform variate exactly 0, seeds 0, 1, 2, 2^64-1, seeds whose first variate exceeds the summed binomial mass (loop bound x < n), invalid parameters (constructor panics), sample_matrix shapes 0..4 x 0..4, MVN sample and sample_n for dimensions 1..5 (Cholesky factor recorded from the crate's own routine), MVN END TO END (MVN::new + sample + sample_n, the Cholesky factor computed by C11's model, nothing recorded but libm) for dimensions 1..6 (thorough: 1..12) on random / diagonal / small-integer / ill-conditioned (badly scaled, Hilbert, nearly singular, equicorrelated) SPD covariances, covariances symmetric only within / just outside the relative tolerance, and rejected inputs (non-positive diagonal, not symmetric, indefinite, singular, NaN / inf entry, not square, zero, mean of the wrong length), ln_gamma on integers, log-uniform (0.5, 1e7), the reflection branch and specials; every case carries the libm calls made (exp, ln, log1p, pow, floor, sin); non-trivial = at least two draws (the generator state is threaded through) or dimension >= 2; distinct by hash of the case term");
+    cs.write(outdir, 120, "after alea::set_seed(seed): the first k draws (k = 0..8) of every distribution over the oracle's regime grid and over random parameters in every algorithm branch (gamma shape < 1/3, < 1, >= 1 and beta / chi-squared / t built on it; Poisson multiplication / PTRS / PTRS beyond 150; binomial inversion / BTPE / flipped / degenerate / n >= 2^31; ziggurat fast path, wedge and tail as the seeds reach them), the oracle's wide grid of extreme-but-valid parameters (scales 1e-300..1e300, Gamma shape 0.05..1e15, Poisson rate 1e-300..1e15, binomial inversion with n up to 1e18, DiscreteUniform with equal bounds, at both ends of i64 and with a span above 2^63), the two seeds that make the first uniform variate exactly 0, seeds 0, 1, 2, 2^64-1, seeds whose first variate exceeds the summed binomial mass (loop bound x < n), invalid parameters (constructor panics), sample_matrix shapes 0..4 x 0..4, MVN sample and sample_n for dimensions 1..5 (Cholesky factor recorded from the crate's own routine), MVN END TO END (MVN::new + sample + sample_n, the Cholesky factor computed by C11's model, nothing recorded but libm) for dimensions 1..6 (thorough: 1..12) on random / diagonal / small-integer / ill-conditioned (badly scaled, Hilbert, nearly singular, equicorrelated) SPD covariances, covariances symmetric only within / just outside the relative tolerance, and rejected inputs (non-positive diagonal, not symmetric, indefinite, singular, NaN / inf entry, not square, zero, mean of the wrong length), ln_gamma on integers, log-uniform (0.5, 1e7), the reflection branch and specials; every case carries the libm calls made (exp, ln, log1p, pow, floor, sin); non-trivial = at least two draws (the generator state is threaded through) or dimension >= 2; distinct by hash of the case term");
 }
